@@ -193,6 +193,31 @@ pub fn scenarios() -> Vec<Scenario> {
             inputs: vec!["."],
             recursive: false,
         },
+        Scenario {
+            name: "write_body_looks_like_temp",
+            files: vec![
+                ("a.txt.txtpp", s("// TXTPP#write first\n// TXTPP#temp victim.txt\n// more\nend\n")),
+                ("victim.txt", s("not generated by txtpp\n")),
+            ],
+            inputs: vec!["."],
+            recursive: false,
+        },
+        Scenario { name: "named_subdir", files: vec![("sub/inner.txt.txtpp", s("inner\n")), ("top.txt.txtpp", s("top\n"))], inputs: vec!["sub"], recursive: false },
+        Scenario {
+            name: "same_command_two_dirs",
+            files: vec![
+                ("a/x.txt.txtpp", s("-TXTPP#run cat marker.txt; basename \"$PWD\"; echo $TXTPP_FILE\n")),
+                ("a/marker.txt", s("MARK-A\n")),
+                ("b/y.txt.txtpp", s("-TXTPP#run cat marker.txt; basename \"$PWD\"; echo $TXTPP_FILE\n")),
+                ("b/marker.txt", s("MARK-B\n")),
+            ],
+            inputs: vec!["."],
+            recursive: true,
+        },
+        Scenario { name: "invalid_utf8_midfile", files: vec![("a.txt.txtpp", b"ok\n\xff\xfe broken\nmore\n".to_vec())], inputs: vec!["."], recursive: false },
+        Scenario { name: "bom_first_line", files: vec![("a.txt.txtpp", s("\u{feff}hello\nworld\n"))], inputs: vec!["."], recursive: false },
+        Scenario { name: "temp_trailing_empty_lines", files: vec![("a.txt.txtpp", s("-TXTPP#temp t.txt\n-a\n-\n-\nx\n"))], inputs: vec!["."], recursive: false },
+        Scenario { name: "symlinked_source_and_dir", files: vec![("real/r.txt.txtpp", s("r\n")), ("shared/deep/d.txt.txtpp", s("d\n")), ("scan/keep.txt", s("k\n"))], inputs: vec!["scan"], recursive: true },
         Scenario { name: "missing_target", files: vec![("a.txt.txtpp", s("a\n"))], inputs: vec!["nothere.txt"], recursive: false },
     ]
 }
@@ -523,6 +548,14 @@ fn snapshot(root: &Path) -> BTreeMap<PathBuf, Vec<u8>> {
     m
 }
 
+/// symbolic links of a scenario: (link path, target relative to the link's directory)
+fn scenario_links(name: &str) -> &'static [(&'static str, &'static str)] {
+    match name {
+        "symlinked_source_and_dir" => &[("scan/link.txt.txtpp", "../real/r.txt.txtpp"), ("scan/linkdir", "../shared/deep")],
+        _ => &[],
+    }
+}
+
 fn materialize(root: &Path, sc: &Scenario) {
     let _ = fs::remove_dir_all(root);
     fs::create_dir_all(root).unwrap();
@@ -530,6 +563,11 @@ fn materialize(root: &Path, sc: &Scenario) {
         let fp = root.join(p);
         fs::create_dir_all(fp.parent().unwrap()).unwrap();
         fs::write(fp, c).unwrap();
+    }
+    for (l, t) in scenario_links(sc.name) {
+        let lp = root.join(l);
+        fs::create_dir_all(lp.parent().unwrap()).unwrap();
+        std::os::unix::fs::symlink(t, lp).unwrap();
     }
 }
 
@@ -659,6 +697,13 @@ fn scenario_props(name: &str) -> &'static [&'static str] {
         "names_and_decoys" => &["C11", "C10"],
         "recursive_and_aliases" => &["C11", "C03"],
         "missing_target" => &["C11", "C04"],
+        "write_body_looks_like_temp" => &["C16", "C15", "C07"],
+        "named_subdir" => &["C11"],
+        "same_command_two_dirs" => &["C17"],
+        "invalid_utf8_midfile" => &["C04"],
+        "bom_first_line" => &["C16"],
+        "temp_trailing_empty_lines" => &["C13"],
+        "symlinked_source_and_dir" => &["C11", "C03"],
         _ => &[],
     }
 }
@@ -896,7 +941,9 @@ fn run_one(work: &Path, sc: &Scenario, tn: bool) -> SysReport {
     let root = work.join("real");
     let sprops = scenario_props(sc.name);
     let exp = reference(&refroot, sc, tn);
-    let initial: Tree = sc.files.iter().map(|(p, c)| (PathBuf::from(p), c.clone())).collect();
+    // the tree before txtpp runs (through symbolic links too: a linked source is seen under both names)
+    materialize(&root, sc);
+    let initial: Tree = snapshot(&root);
     let is_log = |p: &Path| p.file_name().map(|n| n == "count.log").unwrap_or(false);
     let never = |_: &Path| false;
     let is_cycle = exp.cycle_only;
@@ -1085,6 +1132,27 @@ fn run_one(work: &Path, sc: &Scenario, tn: bool) -> SysReport {
         let o_tree = snapshot(&other_root);
         let _ = fs::remove_dir_all(&other_root);
         if o_ok == Ok(true) {
+            // C13: the option controls one final line ending of the outputs and nothing else (temp files never change)
+            rep.checked += 1;
+            for g in &real_generated {
+                let (a, b) = (built.get(g), o_tree.get(g));
+                let same_but_last_le = |x: &Vec<u8>, y: &Vec<u8>| {
+                    let (long, short) = if x.len() >= y.len() { (x, y) } else { (y, x) };
+                    long == short || (long.starts_with(short) && (&long[short.len()..] == b"\n" || &long[short.len()..] == b"\r\n"))
+                };
+                let single_source = sc.files.iter().filter(|(p, _)| is_txtpp_name(Path::new(p).file_name().and_then(|n| n.to_str()).unwrap_or(""))).count() == 1;
+                let ok = match (a, b) {
+                    // an output of a project with one source (no included outputs whose own final line ending matters)
+                    (Some(x), Some(y)) if exp.outputs.contains(g) => !single_source || same_but_last_le(x, y),
+                    // a temp file (known as such to the reference)
+                    (Some(x), Some(y)) if exp.generated.contains(g) => x == y,
+                    _ => true,
+                };
+                if !ok {
+                    rep.fail(sc, &format!("Build with trailing_newline={tn} compared with the real build with {}", !tn),
+                        format!("{}: {:?} vs {:?}", g.display(), a.map(|v| String::from_utf8_lossy(v).to_string()), b.map(|v| String::from_utf8_lossy(v).to_string())), &["C13"]);
+                }
+            }
             rep.checked += 1;
             let differs = diff_trees(&o_tree, &built, &is_log).is_some();
             match run_real(cfg(&root, sc, Mode::Verify, 2, !tn)) {
